@@ -57,6 +57,9 @@ def configs(tier):
     for first, main, depth in (([4], [8], 1), ([8], [4], 1)) + (() if tier == "quick" else (([8], [16], 2), ([4, 4], [8, 8], 1), ([16], [8], 2))):
         out.append(dict(kind="mg_sizes", first=first, main=main, depth=depth))
         out.append(dict(kind="jacobi_sizes", first=first, main=main))
+    # one TVD object applied twice (options read from the object must still be there on the second call)
+    for iso in (False, True):
+        out.append(dict(kind="tvd_object", shape="2x3", isotropic=iso))
     # a Wasserstein solver OBJECT used for a second pair (concolic: concrete masses, symbolic tolerances; body shared with C04)
     for method in ("newton", "bregman", "bregman_adaptive"):
         out.append(dict(kind="wasserstein_reuse", shape=[2, 2], method=method, num_iter=3, aa=0, draw=5, second_call=True))
@@ -195,6 +198,8 @@ def body(cfg):
         return body_sizes(cfg, da)
     if k == "wasserstein_setup":
         return body_wasserstein_setup(cfg, da)
+    if k == "tvd_object":
+        return body_tvd_object(cfg, da)
     if k == "wasserstein_reuse":
         from . import c04
 
@@ -317,6 +322,38 @@ def body(cfg):
         S.claim("tv_denoising_leaves_its_input", S.eq(img, S.array("img", shape, lo=-5, hi=5)))
         S.observe("got", got)
         return
+
+
+def body_tvd_object(cfg, da):
+    """darsia.TVD(method='heterogeneous bregman'): the second call of one object equals the call of a fresh
+    object.  Concrete data when isotropic (the shrinkage takes square roots), symbolic otherwise."""
+    from symx.core import ENGINE
+
+    shape = SHAPES[cfg["shape"]]
+    iso = cfg["isotropic"]
+    if iso and S.symbolic():
+        ENGINE.const_mode = True
+    if iso:
+        rng = np.random.default_rng(9)
+        mk = lambda tag: np.array([S.const(f"{int(v)}/8") for v in rng.integers(-20, 21, size=int(np.prod(shape)))], dtype=object if S.instrumented() else float).reshape(shape)  # noqa: E731
+        mu, om, ell = 0.5, 1.5, 0.75
+    else:
+        mk = lambda tag: S.array(tag, shape, lo=-5, hi=5)  # noqa: E731
+        mu, om, ell = S.real("mu", lo="1/10", hi=5), S.real("om", lo="1/10", hi=5), S.real("ell", lo="1/10", hi=5)
+    a1, a2 = mk("first"), mk("second")
+
+    def tvd():
+        return da.TVD(method="heterogeneous bregman", weight=mu, omega=om, max_num_iter=2 if iso else 1, eps=1e-12, isotropic=iso, dim=len(shape))
+
+    T = tvd()
+    try:
+        T(a1.copy())
+        got = T(a2.copy())
+        ref = tvd()(a2.copy())
+    except TypeError as e:
+        raise S.HarnessSkip(f"TVD option set not accepted: {e}")
+    S.claim("second_call_of_a_tvd_object_equals_a_fresh_object", S.and_(np.shape(got) == np.shape(ref), S.eq(got, ref) if np.shape(got) == np.shape(ref) else False))
+    S.observe("got", got)
 
 
 def body_anderson(cfg, da):
